@@ -1,8 +1,8 @@
 SPECIFICATION Spec
 CONSTANTS
-  MaxIts = {1, 2, 3}
+  MaxIts = {0, 1, 2, 3}
   MaxInner = 2
-  Deviations = {}
+  Deviations = {"TrustSciPyCode"}
   EnvAssume = {"NoBreakdownAfterInnerConverged"}
 INVARIANT TypeOK
 INVARIANT P1_SuccessMeansSmallResidual
